@@ -274,12 +274,56 @@ def r14_8(ck, F):
     ck.expect(n >= 4, "mirrors#count", f"{n} mirror types with subscribe()", f"only {n} mirror types with subscribe() found", None)
 
 
+INDEX_OPS = {"remove": "Lt", "swap_remove": "Lt", "swap_remove_back": "Lt", "swap_remove_front": "Lt", "index_mut": "Lt",
+             "insert": "Le"}
+
+
+def r14_9(ck, F):
+    ck.rule("R14.9", "an event that does not apply is an error, not a no-op: in Mirrored{Vec,VecDeque}Inner::handle_event every "
+            "arm that applies an index taken from the event validates it against the current length with the strictness the "
+            "operation needs (index < len for remove / swap_remove / element assignment, index <= len for insert) before the "
+            "operation, the failing side returning RecvError::InvalidIndex",
+            "Remove(len) reaches a mirror (VecDeque::remove returns None instead of panicking): nothing is removed, no "
+            "InvalidIndex is stored, later events are applied to contents that already differ — borrow() keeps returning Ok",
+            floor=6)
+    n = 0
+    for adt, (file, inner, ev, mirror_inner, sub, mirrored) in OBSERVABLES.items():
+        if inner is None or "hash" in file:
+            continue
+        hb = F.body(f"{mirror_inner}::handle_event")
+        arms, sw, _ = event_arms(hb, ev)
+        for v, (s_, tb, region) in arms.items():
+            for bb, c in std_mutators(hb, {inner}):
+                name = c.split("::")[-1]
+                if bb not in region or name not in INDEX_OPS:
+                    continue
+                t = hb.term(bb)
+                if len(t["a"]) < 2:
+                    continue
+                ie = mir.strip_casts(hb.expr(t["a"][1]))
+                if not mir.show(ie).startswith(f"event.@{v}."):
+                    continue
+                n += 1
+                want = INDEX_OPS[name]
+                ok = False
+                for e, m in conds(hb, bb):
+                    if m is True and isinstance(e, tuple) and e[0] == "bin" and e[1] == want and mir.same_value(mir.strip_casts(e[2]), ie) \
+                            and any(cc[1].endswith("::len") for cc in mir.calls_in(e[3])):
+                        ok = True
+                ck.expect(ok, f"{mirror_inner.split('::')[-1]}::{v}#{name}-index-checked",
+                          f"{name} applied only under index {'<' if want == 'Lt' else '<='} len()",
+                          f"{mirror_inner}::handle_event applies {name} in the {v} arm without establishing index "
+                          f"{'<' if want == 'Lt' else '<='} len() first: an event that does not apply is skipped (or mis-applied) "
+                          f"silently instead of being reported as InvalidIndex", hb.loc(bb))
+    ck.expect(n >= 6, "index-arms#count", f"{n} index-taking operations", f"only {n} index-taking operations found", None)
+
+
 def run(ck, F):
-    for r in (r14_1, r14_2, r14_3, r14_4, r14_5, r14_6, r14_7, r14_8):
+    for r in (r14_1, r14_2, r14_3, r14_4, r14_5, r14_6, r14_7, r14_8, r14_9):
         ck.run_rule(r)
     # shared clauses: observable collections report lag through rch::broadcast (marker before re-admission, surfaced by the
     # receiver); a subscription to a mirror must take snapshot and event stream in one step
     import c16
     import c13
-    for r in (c16.r16_2, c16.r16_3, c16.r16_6, c13.r13_4):
+    for r in (c16.r16_2, c16.r16_3, c16.r16_6, c13.r13_4, c13.r13_1, c13.r13_2):
         ck.run_rule(r)
